@@ -11,11 +11,11 @@ impl Prop for C01 {
     type Case = History;
     const ID: &'static str = "C01";
     fn rule() -> &'static str {
-        "random histories (constructor + up to 40/120 operations with symbolic, state-resolved arguments; ~15% deliberately invalid) on TooDee<u32|Tr>, compared with a rows-of-cells model after every step. Non-trivial = successful structural operations on both axes, or the array shrinks to (0,0) and regrows, or a rejected call is followed by further steps, or a drain is dropped partially consumed. Distinct = distinct serialised history."
+        "random histories (constructor + up to 40/120 operations with symbolic, state-resolved arguments; ~15% deliberately invalid) on TooDee<u32|Tr|Zs|u128|3-byte struct>, compared with a rows-of-cells model after every step. Non-trivial = successful structural operations on both axes, or the array shrinks to (0,0) and regrows, or a rejected call is followed by further steps, or a drain is dropped partially consumed. Distinct = distinct serialised history."
     }
     fn strategy(tier: Tier) -> BoxedStrategy<History> {
         let n = if tier == Tier::Quick { 40 } else { 120 };
-        history::history(&[(3, ElemKind::Tr), (2, ElemKind::U32), (1, ElemKind::Zs)], 0.15, n, 0.0).boxed()
+        history::history(&[(6, ElemKind::Tr), (3, ElemKind::U32), (2, ElemKind::Zs), (1, ElemKind::U128), (1, ElemKind::B3)], 0.15, n, 0.0).boxed()
     }
     fn random_cases(tier: Tier) -> u64 {
         if tier == Tier::Quick { 200_000 } else { 3_000_000 }
@@ -52,7 +52,7 @@ impl Prop for C05 {
         history::execute(case, Mode::Drops, ctx)
     }
     fn fuzz_sanitize(case: &mut History) -> bool {
-        if case.elem == ElemKind::U32 {
+        if matches!(case.elem, ElemKind::U32 | ElemKind::U128 | ElemKind::B3) {
             case.elem = ElemKind::Bx;
         }
         history::sanitize(case)
